@@ -899,7 +899,14 @@ class CallGraph:
                 return [r[1]], True
             return [], True
         if isinstance(arg, ast.Lambda):
-            return [], True
+            return [], False    # a lambda's body is not followed here: the callee is unknown
+        if isinstance(arg, ast.Attribute):
+            t = self.type_of(arg.value, g)
+            if isinstance(t, Cls):
+                ms = self._typed_method(t, arg.attr)
+                if ms:
+                    return ms, True          # a bound method
+            return [], False
         if isinstance(arg, ast.Name) and depth < 4:
             if any(p.arg == arg.id for p in self._params_of(g)) and not self._assignments_to_name(g, arg.id):
                 pc = self._param_callable_targets(arg.id, g, depth + 1)   # handed through: ask g's callers
@@ -932,6 +939,42 @@ class CallGraph:
                     return out, complete
         return [], False
 
+    def _attr_callable_targets(self, cls: Cls, attr):
+        """`self.attr(...)` where attr is not a method: if every store to it is `self.attr = <parameter>` (or a resolvable
+        callable) -> (targets, complete) like _param_callable_targets; None if the attribute is never stored (not ours)"""
+        key = (id(cls), attr, "callable")
+        if key in self._attr_types:
+            return self._attr_types[key]
+        self._attr_types[key] = ([], False)
+        stores = []
+        for k in cls.mro() + self.subclasses(cls):
+            for m in k.methods.values():
+                sn = self.self_name(m)
+                if sn is None:
+                    continue
+                for n in own_nodes(m.node):
+                    if isinstance(n, ast.Assign):
+                        for t in n.targets:
+                            if isinstance(t, ast.Attribute) and t.attr == attr and isinstance(t.value, ast.Name) and t.value.id == sn:
+                                stores.append((m, n.value))
+                    elif isinstance(n, (ast.AnnAssign, ast.AugAssign)) and isinstance(n.target, ast.Attribute) and n.target.attr == attr:
+                        stores.append((m, getattr(n, "value", None)))
+        if not stores:
+            self._attr_types[key] = None
+            return None
+        targets, complete = [], True
+        for m, v in stores:
+            if v is None:
+                complete = False
+                continue
+            if isinstance(v, ast.Constant) and v.value is None:
+                continue
+            ts, c = self._callable_candidates(v, m, 0)
+            targets += [t for t in ts if t not in targets]
+            complete = complete and c
+        self._attr_types[key] = (targets, complete)
+        return self._attr_types[key]
+
     def _param_callable_targets(self, pname, f: Func, depth=0):
         """`pname` is a parameter of f that is *called*: look at what the call sites of f pass."""
         ps = [p.arg for p in self._params_of(f)]
@@ -939,12 +982,13 @@ class CallGraph:
             return None
         idx = ps.index(pname)
         targets, complete = [], True
-        sites = self.callsites_of(f.name)
+        is_ctor = f.name == "__init__" and f.cls is not None and id(f.node) not in self.outer
+        sites = self.callsites_of(f.cls.name if is_ctor else f.name)
         if not sites:
             return None
         for g, call in sites:
             off = 0
-            if self.is_method(f) and isinstance(call.func, ast.Attribute):
+            if self.is_method(f) and (isinstance(call.func, ast.Attribute) or is_ctor):
                 off = 1  # self is implicit
             arg = None
             if idx - off < len(call.args) and idx - off >= 0:
@@ -1107,7 +1151,14 @@ class CallGraph:
                 ms = self._typed_method(t, name)
                 if ms:
                     return ms, "typed"
-                # attribute holding a callable, or a method of an external base class
+                # an instance attribute that holds a callable (`self._read = read_fn` in the constructor):
+                # what do the constructor's call sites pass?  Never "external": the callee is repository code we may not see.
+                held = self._attr_callable_targets(t, name)
+                if held is not None:
+                    ts_, complete = held
+                    if complete and ts_:
+                        return ts_, "hofb"
+                    return ts_, "unknown"
                 at = self.attr_type(t, name)
                 if at is EXTERNAL:
                     return [], "external"
@@ -1833,6 +1884,27 @@ class Bounds:
                 return v if isinstance(v, str) else None
             return None
         if isinstance(e, ast.Name):
+            if any(p_.arg == e.id for p_ in self.cg._params_of(f)) and not self.cg._assignments_to_name(f, e.id):
+                # a struct object received as a parameter: every call site must pass the same layout
+                name = f.cls.name if (f.name == "__init__" and f.cls is not None) else f.name
+                ps = [q.arg for q in self.cg._params_of(f)]
+                idx = ps.index(e.id)
+                fmts = set()
+                sites = 0
+                for g, call in self.cg.callsites_of(name)[:40]:
+                    ts, kind = self.cg.resolve_call(call, g)
+                    if not any(t.node is f.node for t in ts):
+                        continue
+                    sites += 1
+                    off = 1 if (self.cg.is_method(f) and (kind == "ctor" or isinstance(call.func, ast.Attribute))) else 0
+                    arg = call.args[idx - off] if 0 <= idx - off < len(call.args) else None
+                    for kw in call.keywords:
+                        if kw.arg == e.id:
+                            arg = kw.value
+                    fmts.add(self.struct_fmt(arg, g, depth + 1) if arg is not None else None)
+                if sites and len(fmts) == 1 and None not in fmts:
+                    return next(iter(fmts))
+                return None
             if parent(e) is not None and e.id in self._local_names(f):
                 dd = self.cg.dominating_def(e, f)
                 if dd is not None:
@@ -2556,6 +2628,7 @@ class StreamAnalysis:
         self._in_progress = set()
         self._alias = {}
         self._fresh = {}
+        self._cr_hi = {}         # id(unpack call) -> largest size when the layout differs between call sites
         self.hooks = {}          # id(node) -> list to which the state *before* the node is appended
         self.post_hooks = {}     # id(node) -> list; state *after*
 
@@ -2755,7 +2828,7 @@ class StreamAnalysis:
             return None
         fmt = self.b.unpack_fmt(call, f)
         if fmt is None:
-            return None
+            return self._self_sized_unpack(call, f)
         try:
             size = struct.calcsize(fmt)
         except struct.error:
@@ -2785,6 +2858,46 @@ class StreamAnalysis:
         if n != size or n <= 0:
             return None
         return (key, n, rcall)
+
+    def _self_sized_unpack(self, call, f: Func):
+        """`X.unpack(S.read(X.size))` with X a struct object received as a parameter whose call sites pass different layouts:
+        the read is checked whatever the layout; it consumes at least the smallest size that is passed (all must be >= 1)."""
+        fn = call.func
+        if not (isinstance(fn, ast.Attribute) and fn.attr == "unpack" and isinstance(fn.value, ast.Name) and len(call.args) == 1):
+            return None
+        rd = self._as_read(call.args[0], f)
+        if rd is None or rd[2] is None:
+            return None
+        n = rd[1]
+        if not (isinstance(n, ast.Attribute) and n.attr == "size" and isinstance(n.value, ast.Name) and n.value.id == fn.value.id):
+            return None
+        x = fn.value.id
+        if not any(p_.arg == x for p_ in self.cg._params_of(f)) or self.cg._assignments_to_name(f, x):
+            return None
+        name = f.cls.name if (f.name == "__init__" and f.cls is not None) else f.name
+        ps = [q.arg for q in self.cg._params_of(f)]
+        idx = ps.index(x)
+        sizes = []
+        for g, c in self.cg.callsites_of(name)[:60]:
+            ts, kind = self.cg.resolve_call(c, g)
+            if not any(t.node is f.node for t in ts):
+                continue
+            off = 1 if (self.cg.is_method(f) and (kind == "ctor" or isinstance(c.func, ast.Attribute))) else 0
+            arg = c.args[idx - off] if 0 <= idx - off < len(c.args) else None
+            for kw in c.keywords:
+                if kw.arg == x:
+                    arg = kw.value
+            fmt = self.b.struct_fmt(arg, g) if arg is not None else None
+            if fmt is None:
+                return None
+            try:
+                sizes.append(struct.calcsize(fmt))
+            except struct.error:
+                return None
+        if not sizes or min(sizes) < 1:
+            return None
+        self._cr_hi[id(call)] = max(sizes)
+        return (rd[0], min(sizes), rd[2])
 
     def opaque_unpack(self, call, f: Func):
         """an `.unpack(S.read(..))`-shaped call whose format / size could not be established:
@@ -3069,12 +3182,38 @@ class _Run:
         """e evaluates to base_position(key) + [lo, hi] -> (key, lo, hi) or None.
         subst = (self_name, receiver_text, Cls, Func) when e comes from a property body."""
         f = subst[3] if subst else self.f
-        if isinstance(e, ast.Call) and isinstance(e.func, ast.Attribute) and e.func.attr == "tell" and not e.args and subst is None:
-            if self.sa.is_stream_recv(e.func.value, f):
-                key = self.sa.key_of(e.func.value, f)
-                if key is not None:
-                    p = st.p(key)
-                    return (key, p[0], p[1])
+        if isinstance(e, ast.Call) and isinstance(e.func, ast.Attribute) and e.func.attr == "tell" and not e.args and subst is None \
+                and self.sa.is_stream_recv(e.func.value, f):
+            key = self.sa.key_of(e.func.value, f)
+            if key is not None:
+                p = st.p(key)
+                return (key, p[0], p[1])
+            return None
+        if isinstance(e, ast.Call) and subst is None and not (isinstance(e.func, ast.Attribute) and e.func.attr in STREAM_METHODS
+                                                             and self.sa.is_stream_recv(e.func.value, f)):
+            # a repository function that returns a position of a stream it was given / holds  (`self.tell()`)
+            ts, kind = self.cg.resolve_call(e, f)
+            ts = [t for t in ts if t.name != "__new__"]
+            if len(ts) == 1 and kind in ("direct", "typed", "super"):
+                summ = self.sa.summaries.get(id(ts[0].node))
+                if summ is not None and summ.ret_pos is not None and summ.returns:
+                    ckey = summ.ret_pos[0]
+                    root = ckey.split(".")[0]
+                    rest = ckey[len(root):]
+                    k = None
+                    sn = self.cg.self_name(ts[0])
+                    if sn is not None and root == sn:
+                        recv = self._receiver_text(e, ts[0], kind)
+                        k = recv + rest if recv is not None else None
+                    else:
+                        a = self._arg_for_param(e, ts[0], root, kind)
+                        at = self.sa.key_of(a, f) if isinstance(a, (ast.Name, ast.Attribute)) else None
+                        k = at + rest if at is not None else None
+                    # the callee must not have moved the stream itself (a pure position query)
+                    eff = summ.keys.get(ckey)
+                    if k is not None and (eff is None or (eff[0], eff[1]) == (0, 0)):
+                        p = st.p(k)
+                        return (k, p[0] + summ.ret_pos[1], p[1] + summ.ret_pos[2])
             return None
         if isinstance(e, (ast.Name, ast.Attribute)):
             d = dotted(e)
@@ -4285,7 +4424,7 @@ class _Run:
                     st.anch[key] = st.a(key) + n
                 if p[0] != -INF:
                     st.kend[key] = max(st.kend.get(key, -INF), p[0] + n)
-                self._advance(st, key, (n, n))
+                self._advance(st, key, (n, self.sa._cr_hi.get(id(e), n)))
                 return st
             # `x = S.read(n)` in the immediately preceding statement, then unpack(fmt, x)
             if self._prev_stmt_defines(e):
@@ -4494,6 +4633,25 @@ class _Run:
             for p in self.cg._params_of(self.f):
                 if p.annotation is not None and "IO" in ast.unparse(p.annotation):
                     ks.add(p.arg)
+            # `self.x` is a stream if any method of the class reads / seeks it, or it is bound to a stream constructor
+            sn = self.cg.self_name(self.f)
+            cls = self.f.cls
+            if sn is not None and cls is not None:
+                ck = ("stream_attrs", id(cls))
+                cache = self.sa.__dict__.setdefault("_stream_attr_cache", {})
+                if ck not in cache:
+                    attrs = set()
+                    for k in cls.mro() + self.cg.subclasses(cls):
+                        for m in k.methods.values():
+                            msn = self.cg.self_name(m)
+                            for n in own_nodes(m.node):
+                                if isinstance(n, ast.Call) and isinstance(n.func, ast.Attribute) and n.func.attr in STREAM_METHODS \
+                                        and isinstance(n.func.value, ast.Attribute) and isinstance(n.func.value.value, ast.Name) \
+                                        and n.func.value.value.id == msn and not isinstance(self.cg.type_of(n.func.value, m), Cls):
+                                    attrs.add(n.func.value.attr)
+                    cache[ck] = attrs
+                for a in cache[ck]:
+                    ks.add(sn + "." + a)
             self._fkeys = ks
         return self._fkeys
 
@@ -4533,6 +4691,8 @@ class _Run:
             skip = 1 if tgt.name == "__init__" else 0
         if kind == "hof":
             skip = 1 if tgt.name == "__init__" else 0
+        if kind == "hofb":
+            skip = 1 if (self.cg.is_method(tgt) or tgt.name == "__init__") else 0   # a bound method / class: self is implicit
         for kw in e.keywords:
             if kw.arg == pname:
                 return kw.value
